@@ -461,6 +461,17 @@ func Concat(hi, lo *Term) *Term {
 	return mk(OConcat, w, 0, 0, 0, "", "", hi, lo)
 }
 
+// ExtractByte is Extract without the arithmetic push-down rules, used when a
+// value is split into memory bytes so that loading it back re-fuses to the
+// original term.
+func ExtractByte(a *Term, hi, lo int) *Term {
+	noPush = true
+	defer func() { noPush = false }()
+	return Extract(a, hi, lo)
+}
+
+var noPush bool
+
 func Extract(a *Term, hi, lo int) *Term {
 	if hi < lo || lo < 0 || hi >= a.W {
 		panic(fmt.Sprintf("smt.Extract(%d,%d) of width %d", hi, lo, a.W))
@@ -506,7 +517,7 @@ func Extract(a *Term, hi, lo int) *Term {
 			return Ite(a.Args[0], Extract(a.Args[1], hi, lo), Extract(a.Args[2], hi, lo))
 		}
 	case OAnd, OOr, OXor:
-		if isC(a.Args[1]) {
+		if isC(a.Args[1]) && !noPush {
 			x, y := Extract(a.Args[0], hi, lo), Extract(a.Args[1], hi, lo)
 			switch a.Op {
 			case OAnd:
@@ -518,7 +529,7 @@ func Extract(a *Term, hi, lo int) *Term {
 		}
 	case OAdd, OSub, OMul, ONot, ONeg:
 		// low bits of modular arithmetic depend only on low bits
-		if lo == 0 && a.W <= 64 {
+		if lo == 0 && a.W <= 64 && !noPush {
 			switch a.Op {
 			case OAdd:
 				return Add(Extract(a.Args[0], hi, 0), Extract(a.Args[1], hi, 0))
